@@ -519,7 +519,11 @@ def pd_date_range(I, start=None, end=None, freq=None, tz=None, **kw):
     else:
         pf = z3.Function(fresh_name('dr_p'), z3.IntSort(), z3.IntSort())
         i, j = z3.Int(fresh_name('dr_i')), z3.Int(fresh_name('dr_j'))
-        I.assume(m >= 0)
+        cnt = getattr(I, 'flags', {}).get('date_range_count')
+        if cnt is not None:
+            # harness bound: the sequence has exactly cnt points (the loops over it are unrolled)
+            m = int(cnt)
+        I.assume(lift(m) >= 0)
         I.assume(z3.ForAll([i], z3.Implies(z3.And(i >= 0, i < m), z3.And(s0 <= pf(i), pf(i) <= e0)), patterns=[pf(i)]))
         I.assume(z3.ForAll([i, j], z3.Implies(z3.And(i >= 0, i < j, j < m), pf(i) < pf(j)), patterns=[z3.MultiPattern(pf(i), pf(j))]))
         out = Arr(m, lambda k: TS(pf(lift(k)), tzres), kind='dtindex')
@@ -1067,6 +1071,21 @@ def arr_attr(I, a, attr):
         return lambda I_, **kw: sym.exists_arr(a)
     if attr == 'min':
         return lambda I_, **kw: arr_extreme(I, a, False)
+    if attr == 'max' and a.index is not None and concrete_int(a.n) is None:
+        # pandas Series.max(): NaN for an empty series (no exception), otherwise the largest entry
+        def series_max(I_, **kw):
+            pv = a.f(z3.Int('probe!m'))
+            if isinstance(pv, Opt) or pv is None:
+                # entries that may be NaN themselves (skipped by pandas): some value or NaN, nothing more is claimed
+                return Opt(z3.Bool(fresh_name('smax_null')), z3.Real(fresh_name('smax')))
+            probe = lift(pv)
+            m = z3.Const(fresh_name('smax'), probe.sort())
+            if not I.loops:
+                i, w = z3.Int(fresh_name('q')), z3.Int(fresh_name('wit'))
+                I.assume(z3.ForAll([i], z3.Implies(z3.And(i >= 0, i < lift(a.n)), lift(a.f(i)) <= m)))
+                I.assume(z3.Implies(lift(a.n) > 0, z3.And(w >= 0, w < lift(a.n), lift(a.f(w)) == m)))
+            return sym.mk_opt(lift(a.n) == 0, m)
+        return series_max
     if attr == 'max':
         return lambda I_, **kw: arr_extreme(I, a, True)
     if attr == 'flatten':
@@ -1136,6 +1155,23 @@ def arr_attr(I, a, attr):
             a.view = a.comp = None
             return None
         return append
+    if attr == 'append' and a.kind == 'dtindex':
+        def dt_append(I_, other):
+            other = _as_arr(I, other)
+            out = sym.arr_concat([a, other])
+            out.kind = 'dtindex'
+            out.tz = getattr(a, 'tz', None)
+            return out
+        return dt_append
+    if attr == 'insert' and a.kind == 'dtindex':
+        def dt_insert(I_, pos, item):
+            if concrete_int(pos) != 0 or not isinstance(item, TS):
+                raise Unsupported('DatetimeIndex.insert form')
+            out = sym.arr_concat([Arr(1, lambda i, item=item: item), a])
+            out.kind = 'dtindex'
+            out.tz = getattr(a, 'tz', None)
+            return out
+        return dt_insert
     if attr == 'get_indexer':
         raise Unsupported('get_indexer')
     if attr == 'unique':
